@@ -321,7 +321,8 @@ def srcvStep (cap : Nat) (junk : UInt8) (st : Option Srcv) (num m szx : Nat) (pa
     Option Srcv × SrcvOut :=
   let chunk := 2 ^ (szx + 4)
   let data := if payload.length > chunk then payload.take chunk else payload
-  if ¬ (payload.length > chunk) ∧ m = 1 ∧ payload.length ≠ chunk then (st, .undersized)
+  if num = 0 ∧ m = 0 then (st, .deliver payload payload.length)    -- "Not blocked, or a single block": call_app_handler
+  else if ¬ (payload.length > chunk) ∧ m = 1 ∧ payload.length ≠ chunk then (st, .undersized)
   else
     let total := match size1 with | some t => t | none => 0
     let offset := num * chunk
